@@ -402,21 +402,33 @@ class Engine:
         return False
 
     def cursor_off(self, e, st):
-        """offset K if e is `cursor` / `cursor + K` / `&cursor[K]`, else None"""
+        """offset K (in bytes from the cursor's present position) if e is the cursor, `<such a pointer> + K`, `&<such a pointer>[K]`, or a
+        pointer local that was bound to such an expression (a named view into the record: `regs = cursor + 37 + 7 * l`), else None"""
         e = strip(e)
         if e is None:
             return None
         if self.is_cursor(e):
             return Poly.const(0)
+        if e.get('k') == 'DeclRefExpr' and ('alias', e.get('id')) in st.env:
+            k0, c0 = st.env[('alias', e['id'])]
+            if k0 is None or c0 is None or st.consumed is None:
+                return None
+            return k0 + c0 - st.consumed        # the cursor may have moved since the view was taken
         if e.get('k') == 'BinaryOperator' and e['op'] == '+':
-            if self.is_cursor(e['l']):
-                return self.ev(e['r'], st)
-            if self.is_cursor(e['r']):
-                return self.ev(e['l'], st)
+            lo, ro = self.cursor_off(e['l'], st), self.cursor_off(e['r'], st)
+            if lo is not None and ro is None:
+                r = self.ev(e['r'], st)
+                return (lo + r) if r is not None else None
+            if ro is not None and lo is None:
+                l = self.ev(e['l'], st)
+                return (ro + l) if l is not None else None
         if e.get('k') == 'UnaryOperator' and e['op'] == '&':
             x = strip(e['e'])
-            if x.get('k') == 'ArraySubscriptExpr' and self.is_cursor(x['b']):
-                return self.ev(x['i'], st)
+            if x.get('k') == 'ArraySubscriptExpr':
+                bo = self.cursor_off(x['b'], st)
+                i = self.ev(x['i'], st)
+                if bo is not None and i is not None:
+                    return bo + i
         return None
 
     def record(self, ln, construct, need, st):
@@ -430,9 +442,10 @@ class Engine:
         """record obligations for every access through the cursor inside expression e"""
         for x in walk(e):
             k = x.get('k')
-            if k == 'ArraySubscriptExpr' and self.is_cursor(x['b']):
+            if k == 'ArraySubscriptExpr' and self.cursor_off(x['b'], st) is not None:
                 i = self.ev(x['i'], st)
-                self.record(x.get('ln'), show(x), (i + 1) if i is not None else None, st)
+                bo = self.cursor_off(x['b'], st)
+                self.record(x.get('ln'), show(x), (bo + i + 1) if i is not None else None, st)
             elif k == 'UnaryOperator' and x['op'] == '*':
                 off = self.cursor_off(x['e'], st)
                 if off is not None:
@@ -840,9 +853,14 @@ class Engine:
                         st.env[key] = self.fit(val, v['t'])
                     elif v['t'].get('u') and not v['t'].get('p'):
                         st.env[key] = self.sym(v['n'], v['t'])
-                    # pointer alias of the cursor: treat as the cursor itself is not supported -> note
-                    if v['t'].get('p') and self.cursor_off(v['init'], st) is not None and v['id'] != self.cursor_id:
-                        self.notes.append('alias of cursor: %s (line %s)' % (v['n'], s.get('ln')))
+                    # a pointer local bound to a place in the record: a view with a known offset (never reassigned), else a note
+                    if v['t'].get('p') and v['id'] != self.cursor_id and self.cursor_deref_of is None:
+                        ko = self.cursor_off(v['init'], st)
+                        if ko is not None:
+                            if v['id'] in single_defs(self.fn.d):
+                                st.env[('alias', v['id'])] = (ko, st.consumed)
+                            else:
+                                self.notes.append('alias of cursor: %s (line %s)' % (v['n'], s.get('ln')))
             return self.fork_if_needed(st), []
         if k in ('ForStmt', 'WhileStmt', 'DoStmt'):
             return self.loop(s, st)
